@@ -41,8 +41,10 @@ PROVED = {
          "and an explicit width w gives a size field of exactly w bytes; write_all delivers exactly the data for every write script without a hard "
          "error. Whole documents (Proofs/WriteEnc.v, WriteFull.v): a conforming document written tag by tag (any widths, unknown size by option) and the same "
          "document with every master given as one Full item both yield exactly the structural encoding enc_forest: byte-identical output for the two "
-         "presentations although the separate calls flush in between (C09_full_equals_separate); options show up only in the size fields they govern. "
-         "Mixed presentations, global-placeholder paths and destination write scripts are covered by the correspondence groups.", ""),
+         "presentations although the separate calls flush in between (C09_full_equals_separate); C09_mixed_encodes / C09_presentation_irrelevant "
+         "(Proofs/WriteMixed.v): the same for ARBITRARY MIXES — at every master independently either one Full item or Start, children (each again by "
+         "its own choice), End — every call succeeds and the bytes are enc_forest; options show up only in the size fields they govern. "
+         "Global-placeholder paths and destination write scripts are covered by the correspondence groups.", ""),
  "C19": ("Theorem C19_atomic: for every specification, state, tag tree (any nesting of Full) and options, a write that returns a non-I/O error "
          "leaves the complete writer state (open masters, working buffer, delivered bytes, destination script) exactly as it was; corollaries for the "
          "deprecated call, for write_raw (no non-I/O failure exists) and for the rest of the run (C19_erase). The proof exposed defect D21 (fixed). "
